@@ -9,16 +9,30 @@
             to the Bernoulli draw must lie in [0,1] and be the CONDITIONAL probability (p_is_conditional is the
             harness's 1e-9 comparison of p with scalar / P(prefix), P(prefix) derived from the validated scalars);
             every printed sample must have non-zero Born probability and equal the bits drawn
-   query  : a malformed query must exit non-zero without panicking; a well-formed one must succeed *)
+   query  : a malformed query must exit non-zero without panicking; a well-formed one must succeed
+            kind "file_malformed": an unreadable / syntactically wrong / ill-typed input file must be rejected the same way;
+            kind "file_unsupported": legal OpenQASM the front end does not support: no panic (UnsupportedInputNoPanic), the
+            exit status is not judged; kind "file_outside": a circuit with a measurement is outside the property's quantifier
+            (unitary gate set): counted only.
+   Events with a field `variant` come from the rest of the command-line surface (no task flag = one shot, -s 0, the long
+   flags, -p N for N in {0,1,3,4}, -o / --out: the answer is then read back from the file) and are judged by the same
+   predicates. *)
 EXTENDS TraceLib, Sim, FiniteSets, FiniteSetsExt
 VARIABLES l, c, psi, viol, drift, stats
 vars == <<l, c, psi, viol, drift, stats>>
 Init == l = 1 /\ c = [n |-> 0, gates |-> <<>>] /\ psi = <<>> /\ viol = <<>> /\ drift = <<>>
-        /\ stats = [circuits |-> 0, amps |-> 0, exps |-> 0, draws |-> 0, samples |-> 0, malformed |-> 0, nontrivial |-> 0]
+        /\ stats = [circuits |-> 0, amps |-> 0, exps |-> 0, draws |-> 0, samples |-> 0, malformed |-> 0, nontrivial |-> 0,
+                    variants |-> 0, default_task |-> 0, zero_shots |-> 0, out_file |-> 0, par_flag |-> 0,
+                    file_errors |-> 0, file_unsupported |-> 0, file_unsupported_accepted |-> 0, file_outside |-> 0, file_outside_panics |-> 0]
 V(ok, name, e) == IF ok THEN <<>> ELSE <<<<l, name>>>>
 BitsOf(chars) == LET s == Broadcast(chars, c.n) IN [k \in 1..c.n |-> BitOf(s[k])]
 PaulisOf(chars) == LET s == Broadcast(chars, c.n) IN [k \in 1..c.n |-> Upper(s[k])]
 Succeeded(e) == e.exit = 0 /\ ~e.panicked /\ e.res = "ok"
+B2N(b) == IF b THEN 1 ELSE 0
+IsVariant(e, v) == Has(e, "variant") /\ e.variant = v
+VarStats(st, e) == [st EXCEPT !.variants = @ + B2N(Has(e, "variant")), !.default_task = @ + B2N(IsVariant(e, "default_task")),
+                              !.zero_shots = @ + B2N(IsVariant(e, "zero_shots")), !.out_file = @ + B2N(Has(e, "out") /\ e.out),
+                              !.par_flag = @ + B2N(Has(e, "variant") /\ e.par)]
 DrawOK(d) == /\ ~d.approx
              /\ ScFromAbs(d.scalar) = N2ToRing(Marg(psi, c.n, Append(d.pre, 1)))
 RECURSIVE DrawViol(_, _)
@@ -43,24 +57,32 @@ Step(e) ==
                      ELSE V(Succeeded(e), "QuerySucceeds", e)
                           \o (IF Succeeded(e) THEN V(~e.approx /\ ScFromAbs(e.scalar) = psi[BitsOf(e.chars)], "AmplitudeOK", e)
                                                    \o V(e.printed_ok, "PrintedProbabilityOK", e) ELSE <<>>)) \o viol
-         /\ stats' = [stats EXCEPT !.amps = @ + 1, !.nontrivial = @ + 1] /\ UNCHANGED <<c, psi, drift>>
+         /\ stats' = VarStats([stats EXCEPT !.amps = @ + 1, !.nontrivial = @ + 1], e) /\ UNCHANGED <<c, psi, drift>>
     [] e.k = "exp" ->
          LET valid == StringValid(e.chars, PauliChars, c.n) IN
          /\ viol' = (IF ~valid THEN V(e.exit # 0 /\ ~e.panicked, "MalformedRejected", e)
                      ELSE V(Succeeded(e), "QuerySucceeds", e)
                           \o (IF Succeeded(e) THEN V(~e.approx /\ ScFromAbs(e.scalar) = Expect(psi, c.n, PaulisOf(e.chars)), "ExpectationOK", e)
                                                    \o V(e.printed_ok, "PrintedExpectationOK", e) ELSE <<>>)) \o viol
-         /\ stats' = [stats EXCEPT !.exps = @ + 1, !.nontrivial = @ + 1] /\ UNCHANGED <<c, psi, drift>>
+         /\ stats' = VarStats([stats EXCEPT !.exps = @ + 1, !.nontrivial = @ + 1], e) /\ UNCHANGED <<c, psi, drift>>
     [] e.k = "sample" ->
          /\ viol' = V(Succeeded(e), "QuerySucceeds", e) \o (IF Succeeded(e) THEN RunsViol(e.runs, 1) ELSE <<>>) \o viol
-         /\ stats' = [stats EXCEPT !.samples = @ + e.shots, !.draws = @ + e.shots * c.n, !.nontrivial = @ + 1]
+         /\ stats' = VarStats([stats EXCEPT !.samples = @ + e.shots, !.draws = @ + e.shots * c.n, !.nontrivial = @ + 1], e)
          /\ UNCHANGED <<c, psi, drift>>
     [] e.k = "query" ->
          LET valid == CASE e.kind = "bits" -> StringValid(e.chars, BitChars, c.n)
                         [] e.kind = "paulis" -> StringValid(e.chars, PauliChars, c.n)
-                        [] OTHER -> FALSE        \* two tasks / two methods are mutually exclusive
-         IN /\ viol' = (IF valid THEN V(e.exit = 0 /\ ~e.panicked, "QuerySucceeds", e) ELSE V(e.exit # 0 /\ ~e.panicked, "MalformedRejected", e)) \o viol
-            /\ stats' = [stats EXCEPT !.malformed = @ + 1] /\ UNCHANGED <<c, psi, drift>>
+                        [] OTHER -> FALSE        \* two tasks / two methods are mutually exclusive; bad flag values; bad input files
+         IN /\ viol' = (IF e.kind = "file_outside" THEN <<>>
+                        ELSE IF e.kind = "file_unsupported" THEN V(~e.panicked, "UnsupportedInputNoPanic", e)
+                        ELSE IF valid THEN V(e.exit = 0 /\ ~e.panicked, "QuerySucceeds", e) ELSE V(e.exit # 0 /\ ~e.panicked, "MalformedRejected", e)) \o viol
+            /\ stats' = [stats EXCEPT !.malformed = @ + 1, !.variants = @ + B2N(Has(e, "variant")),
+                                      !.file_errors = @ + B2N(e.kind = "file_malformed"),
+                                      !.file_unsupported = @ + B2N(e.kind = "file_unsupported"),
+                                      !.file_unsupported_accepted = @ + B2N(e.kind = "file_unsupported" /\ e.exit = 0),
+                                      !.file_outside = @ + B2N(e.kind = "file_outside"),
+                                      !.file_outside_panics = @ + B2N(e.kind = "file_outside" /\ e.panicked)]
+            /\ UNCHANGED <<c, psi, drift>>
 Next == \/ /\ l <= NLines /\ Step(Rec[l]) /\ l' = l + 1
         \/ /\ l = NLines + 1 /\ Report(l, viol, drift, stats) /\ l' = l + 1 /\ UNCHANGED <<c, psi, viol, drift, stats>>
 =============================================================================
